@@ -1260,8 +1260,8 @@ func (r *runner) drift(f string, a ...interface{}) {
 }
 
 // Real-time scripts: every request of model time m is sent at t0 + m*unit + rtOffset.  With unit = 6 s and the node's
-// constants (validity 5 s, skew 5 s, nonce kept 10 s) every comparison the node makes has a margin of >= 1.5 s, and the
-// discrete model (VPWindow = Skew = 1, NonceTTL = 2) is exactly the abstraction of these schedules.
+// constants (validity 5 s, skew 5 s, nonce kept 15 s) every comparison the node makes has a margin of >= 1.5 s, and the
+// discrete model (VPWindow = Skew = 1, NonceTTL = 3) is exactly the abstraction of these schedules.
 const rtOffset = 2500 * time.Millisecond
 const rtTolerance = 1100 * time.Millisecond
 
@@ -1303,7 +1303,7 @@ func (r *runner) nonceBurnt(n string) bool {
 	if n == "" {
 		return false
 	}
-	return r.w.sessions.GetStore(10*time.Second, "s2s", "nonce").Exists(n)
+	return r.w.sessions.GetStore(15*time.Second, "s2s", "nonce").Exists(n)
 }
 
 func (r *runner) sendToken(sr *sentReq) (outcome, error) {
@@ -2209,6 +2209,11 @@ func (w *world) discover() result {
 		return res
 	}
 	for k := range rep.json {
+		if _, isClaim := p.expected[k]; isClaim {
+			// a credential-derived claim of the baseline definition (the extended answer carries them since the repair of
+			// C02-extclaims), not a member of the answer type
+			continue
+		}
 		res.Members = append(res.Members, k)
 	}
 	sort.Strings(res.Members)
